@@ -69,7 +69,7 @@ class Model:
 
 
 @st.composite
-def history(draw, tier="quick", jumps=False):
+def history(draw, tier="quick", jumps=False, long=False):
     clock = draw(st.sampled_from([8000, 48000, 90000]))
     base = draw(st.one_of(st.integers(0, 65535), st.integers(65400, 65535), st.integers(0, 100)))
     T0 = draw(st.one_of(st.integers(0, 2**32 - 1), st.integers(2**32 - 400000, 2**32 - 1)))
@@ -80,6 +80,15 @@ def history(draw, tier="quick", jumps=False):
     pos = 0
     seen = [0]
     events.append(["p", 0, draw(st.sampled_from([0, 1, 20]))])
+    if long:
+        # a run of far jumps, kept as ONE event so that it shrinks as one value: `count` packets, each `step` sequence
+        # numbers after the previous one (every step is a legal forward jump, < 2^15) - more than 128 sequence cycles
+        # of loss, which is where the cumulative figure leaves the 24-bit signed field of the report
+        count = draw(st.sampled_from([200, 257, 258, 300, 520, 800]))
+        step = draw(st.sampled_from([30000, 32000, 32767]))
+        events.append(["F", pos, count, step])
+        pos += count * step
+        seen.append(pos)
     for _ in range(n):
         k = draw(st.sampled_from(["next", "next", "next", "next", "loss", "far", "reorder", "dup", "report", "report"]))
         gap = draw(st.sampled_from([0, 1, 5, 20, 20, 33, 400, 2000]))
@@ -134,6 +143,21 @@ def stamp(case: dict, u: int) -> int:
     return case["T0"] + ((u + 1000) // case["ppf"]) * case["tick"]
 
 
+def expand(case: dict) -> dict:
+    """["F", start, count, step] -> count packets at start + step * i, 1 ms apart."""
+    if not any(ev and ev[0] == "F" for ev in case.get("events", [])):
+        return case
+    out = []
+    for ev in case["events"]:
+        if ev and ev[0] == "F":
+            if len(ev) != 4 or not all(isinstance(x, int) for x in ev[1:]) or not (0 < ev[3] < 2**15) or not (0 <= ev[2] <= 2000):
+                return dict(case, events=[["?"]])
+            out.extend(["p", ev[1] + ev[3] * i, 1] for i in range(1, ev[2] + 1))
+        else:
+            out.append(ev)
+    return dict(case, events=out)
+
+
 def valid(case: dict) -> bool:
     """Preconditions of the statement (only ddmin can break them): known clock
     rates, every packet within half the sequence space of the highest seen."""
@@ -155,6 +179,8 @@ def valid(case: dict) -> bool:
 
 
 def run_stats(case: dict) -> Outcome:
+    case0 = case
+    case = expand(case)
     if not valid(case):
         return Outcome()
     now = [EPOCH]
@@ -227,7 +253,11 @@ def run_stats(case: dict) -> Outcome:
             classes.add("reorder")
         if model.expected > model.received:
             classes.add("loss")
+        if model.expected - model.received > (1 << 23) - 1:
+            classes.add("loss-saturated")
     nt = "reorder" in classes and "loss" in classes and bool(classes & {"seq-cycle", "ts-wrap"})
+    if any(ev[0] == "F" for ev in case0["events"]):
+        nt = "loss-saturated" in classes  # (family long-loss: the case counts when the true loss exceeds 2^23 - 1)
     return Outcome(None, None, nt, tuple(sorted(classes)))
 
 
@@ -382,12 +412,13 @@ CHECK = Check(
         "packets_received after each packet; loss, fraction, extended highest sequence, jitter (mod 2^32, exact when deltas "
         "< 2^30 ticks) at each report; every report serialises and parses back. Layer 2 feeds a real RTCRtpReceiver under "
         "virtual time and compares the RR packets it sends. Non-trivial = history has loss and reordering and crosses a "
-        "sequence cycle or the timestamp wrap (layer 2: at least one RR compared and a sequence cycle)."
+        "sequence cycle or the timestamp wrap (family long-loss: a run of 200-800 far jumps of 30000-32767, i.e. up to 400 sequence cycles of loss, kept as one shrinkable event; non-trivial = the true cumulative loss exceeds 2^23-1, where the report must carry the saturated value; layer 2: at least one RR compared and a sequence cycle)."
         " The real-receiver family also feeds sender reports (any NTP timestamp) and steps the wall clock by -4e9..4e9 s: reports must keep coming every 0.5-1.5 s and stop() must return."
     ),
     families=[
         Family("statistics", run_stats, lambda tier: history(tier), quick=5000, thorough=250000),
         Family("clock-jump", run_stats, lambda tier: history(tier, jumps=True), quick=1500, thorough=50000),
+        Family("long-loss", run_stats, lambda tier: history(tier, long=True), quick=300, thorough=6000),
         Family("receiver-rr", run_receiver, lambda tier: history_rr(tier), quick=600, thorough=15000, min_shard=10),
     ],
     floor=300,
